@@ -606,8 +606,8 @@ def gen_learners_case(rng, small=False):
 
 def generate(rng, tier, mult):
     out = [{"kind": "range", "n": n} for n in range(5)]
-    n_parts = (160 if tier == "quick" else 900) * mult
-    n_learn = (70 if tier == "quick" else 450) * mult
+    n_parts = (230 if tier == "quick" else 900) * mult
+    n_learn = (100 if tier == "quick" else 450) * mult
     for _ in range(n_parts):
         out.append(gen_parts_case(rng, small=rng.random() < 0.5))
     if tier != "quick":
